@@ -1277,6 +1277,12 @@ func (b *beacon) ReindexExpiration(treasures []treasure.Treasure) {
 		if t.GetExpirationTime() == 0 {
 			continue
 		}
+		// SelectExpiredForPatch* leaves the selected records in treasuresByKeys;
+		// a record that is no longer there was deleted from the swamp in the
+		// meantime and must not come back into the ordered slice.
+		if member, ok := b.treasuresByKeys[t.GetKey()]; !ok || member != t {
+			continue
+		}
 		b.treasuresByOrder = append(b.treasuresByOrder, t)
 	}
 	// Mirror SortByExpirationTimeAsc's comparator. We always sort
